@@ -108,6 +108,10 @@ func NewWorld(cfg Config) (*World, error) {
 	for i := 0; i < 2; i++ {
 		u.MetaAddrs = append(u.MetaAddrs, MetaContractAddr(i))
 	}
+	// a metachain contract whose address differs from the ESDT system contract's in the last-but-one byte only
+	look := append([]byte{}, spec.ESDTSystemSC...)
+	look[30] = 0xfe
+	u.MetaAddrs = append(u.MetaAddrs, look)
 	tickers := []string{"FUN", "SFT", "NFT", "GOLD", "ART"}
 	kinds := []int{KindFungible, KindSFT, KindNFT, KindFungible, KindSFT}
 	for i := 0; i < cfg.NumTokens && i < len(tickers); i++ {
@@ -268,7 +272,7 @@ func (w *World) MsgOfTx(n int, t *TxJSON) *Msg {
 		v.SetString(t.Value, 10)
 	}
 	return &Msg{ID: fmt.Sprintf("%d.t", n), Kind: KindUserTx, Snd: snd, Rcv: rcv, Data: t.Data, Value: v, Gas: t.Gas, GasLocked: t.GasLocked,
-		CallType: vmcommon.CallType(t.CallType), SrcShard: ShardOf(snd, w.Cfg.NumShards), DstShard: ShardOf(snd, w.Cfg.NumShards), OrigCallType: vmcommon.CallType(t.CallType)}
+		CallType: vmcommon.CallType(t.CallType), ReturnErr: t.ReturnErr, SrcShard: ShardOf(snd, w.Cfg.NumShards), DstShard: ShardOf(snd, w.Cfg.NumShards), OrigCallType: vmcommon.CallType(t.CallType)}
 }
 
 // Apply executes one event; it returns false when the event was not applicable (replay of a
@@ -307,7 +311,7 @@ func (w *World) Apply(ev Event) bool {
 		w.logf("sc %d %+v", ev.N, *ev.SC)
 		applied = w.ApplySC(ev.SC)
 	case "epoch":
-		if int(ev.Shard) >= len(w.Nodes) {
+		if ev.Shard >= uint32(len(w.Nodes)) {
 			return false
 		}
 		nd := w.Nodes[ev.Shard]
@@ -325,7 +329,7 @@ func (w *World) Apply(ev Event) bool {
 		w.logf("epoch shard=%d %d -> %d", ev.Shard, prev, ev.Epoch)
 		w.CheckRegistry(nd)
 	case "sched":
-		if int(ev.Shard) >= len(w.Nodes) || ev.Sched == nil {
+		if ev.Shard >= uint32(len(w.Nodes)) || ev.Sched == nil {
 			return false
 		}
 		nd := w.Nodes[ev.Shard]
@@ -353,7 +357,7 @@ func (w *World) Apply(ev Event) bool {
 		}
 		w.logf("sched shard=%d valid=%v", ev.Shard, ev.Sched.Valid())
 	case "restart":
-		if int(ev.Shard) >= len(w.Nodes) {
+		if ev.Shard >= uint32(len(w.Nodes)) {
 			return false
 		}
 		restart := w.Nodes[ev.Shard].Restart
@@ -368,12 +372,29 @@ func (w *World) Apply(ev Event) bool {
 		w.Stats.Faults["node-restart"]++
 		w.logf("restart shard=%d", ev.Shard)
 		w.CheckRegistry(w.Nodes[ev.Shard])
+	case "hostapi":
+		// the host modifies the live container through its public API: one function without a
+		// cross-shard leg is removed (calls to it then fail as unknown; everything else is as before)
+		if ev.Shard >= uint32(len(w.Nodes)) {
+			return false
+		}
+		ok := false
+		for _, n := range RemovableFunctions {
+			ok = ok || n == ev.ID
+		}
+		if !ok || w.Nodes[ev.Shard].HostRemoved[ev.ID] {
+			return false
+		}
+		w.Nodes[ev.Shard].HostRemove(ev.ID)
+		w.Stats.Faults["function-removed-from-live-container-by-host"]++
+		w.logf("host removes %s from the container of shard %d", ev.ID, ev.Shard)
+		w.CheckRegistry(w.Nodes[ev.Shard])
 	case "upgrade":
 		// a contract upgrade changes its code metadata: the payability oracle's answer for that
 		// address changes from now on (on every shard: one table)
 		addr := unhx(ev.ID)
 		sh := ShardOf(addr, w.Cfg.NumShards)
-		if len(addr) != 32 || !spec.IsContract(addr) || int(sh) >= len(w.Nodes) {
+		if len(addr) != 32 || !spec.IsContract(addr) || sh >= uint32(len(w.Nodes)) {
 			return false
 		}
 		st := int(ev.Epoch) % 3
@@ -402,8 +423,12 @@ func (w *World) Apply(ev Event) bool {
 		return false
 	}
 	// everything has been read from the outputs of this event's calls: their owner now uses them up
+	w.checkRetained()
 	for _, o := range w.toConsume {
-		ConsumeOutput(o)
+		w.retain(o)
+		if problem := ConsumeOutput(o); problem != "" {
+			w.violate(spec.Violation{Props: spec.P("C01", "C10", "C13"), Clause: "output-ownership", Detail: problem})
+		}
 	}
 	w.toConsume = w.toConsume[:0]
 	for _, ex := range w.toReuse {
@@ -445,10 +470,18 @@ func (w *World) checkBuilder(t *TxJSON) {
 	w.CheckBuilt(t.Fn, args, data)
 }
 
+// RemovableFunctions have no cross-shard leg: removing one breaks no continuation, refund or control message.
+var RemovableFunctions = []string{spec.FnClaimRewards, spec.FnChangeOwner, spec.FnSaveKeyValue, spec.FnLocalMint, spec.FnLocalBurn, spec.FnNFTBurn, spec.FnNFTAddQuantity}
+
 // CheckRegistry checks C18's registry half and the activation flags of a shard.
 func (w *World) CheckRegistry(nd *Node) {
 	names := nd.ContainerNames()
-	want := append([]string{}, spec.AllFunctions...)
+	var want []string
+	for _, n := range spec.AllFunctions {
+		if !nd.HostRemoved[n] {
+			want = append(want, n)
+		}
+	}
 	sort.Strings(want)
 	if fmt.Sprint(names) != fmt.Sprint(want) || nd.Container.Len() != len(want) {
 		w.violate(spec.Violation{Props: spec.P("C18"), Clause: "registry", Detail: fmt.Sprintf("shard %d container holds %v (len %d), the protocol defines %v", nd.ID, names, nd.Container.Len(), want)})
@@ -498,4 +531,49 @@ func (w *World) Drain(maxSteps int) []Event {
 		}
 	}
 	return evs
+}
+
+// retained: message bytes of earlier outputs that their receiver still holds by reference (a host
+// that sends a block's messages after the block), with a private copy of what they said.
+type retained struct {
+	data []byte
+	want string
+}
+
+// retain keeps references to the data of an output's transfers (at most 48 are held).
+func (w *World) retain(out *vmcommon.VMOutput) {
+	if out == nil {
+		return
+	}
+	keys := make([]string, 0, len(out.OutputAccounts))
+	for k := range out.OutputAccounts {
+		keys = append(keys, k)
+	}
+	sort.Strings(keys)
+	for _, k := range keys {
+		oa := out.OutputAccounts[k]
+		if oa == nil {
+			continue
+		}
+		for _, t := range oa.OutputTransfers {
+			if len(t.Data) > 0 {
+				w.held = append(w.held, retained{t.Data, string(t.Data)})
+			}
+		}
+	}
+	if len(w.held) > 48 {
+		w.held = w.held[len(w.held)-48:]
+	}
+}
+
+// checkRetained: what an earlier call returned must not change because later calls ran (C13, and
+// with it what C08/C10 say about messages: the bytes are the message).
+func (w *World) checkRetained() {
+	for _, h := range w.held {
+		if string(h.data) != h.want {
+			w.violate(spec.Violation{Props: spec.P("C13", "C10", "C08", "C01"), Clause: "output-ownership", Detail: fmt.Sprintf("the data of an output transfer returned by an earlier call said %q and says %q after later calls", h.want, h.data)})
+			w.held = nil
+			return
+		}
+	}
 }
